@@ -263,6 +263,7 @@ def _h_combinators(rec):
 
 HANDLERS["combinators"] = _h_combinators
 HANDLERS["losses"] = _grid_handler("rt_c17", "C17 loss re-evaluation")
+HANDLERS["triangular"] = _grid_handler("rt_triangular", "TriangularAffine trained-leaf")
 HANDLERS["transformed"] = _grid_handler("rt_c03", "C03 change-of-variables")
 HANDLERS["merge_transforms"] = _grid_handler("rt_c03", "C03 change-of-variables")
 
